@@ -345,6 +345,12 @@ class Exec(ExprMixin, CallMixin):
                         fr.env["__current_exception__"] = rs.exc
                         try:
                             self.exec_block(h.body, fr)
+                            self._note_swallowed(rs)
+                        except RaiseSig:
+                            raise  # re-raised / replaced by another exception: not swallowed
+                        except (ReturnSig, BreakSig, ContinueSig):
+                            self._note_swallowed(rs)  # the handler leaves by return / break / continue
+                            raise
                         finally:
                             if saved is None:
                                 fr.env.pop("__current_exception__", None)
@@ -360,6 +366,12 @@ class Exec(ExprMixin, CallMixin):
                 # a Signal propagating through finally: run the finaliser, then continue propagating
                 self.exec_block(st.finalbody, fr)
 
+    def _note_swallowed(self, rs):
+        """An exception was caught by a handler of the code under proof that did not re-raise: contracts can see the
+        classes swallowed on this path through the spec parameter `caught` (a tuple of class names, in order)."""
+        lst = self.run.__dict__.setdefault("caught", [])
+        lst.append(rs.exc.cls)
+
     def st_With(self, st, fr):
         if len(st.items) == 1 and isinstance(st.items[0].context_expr, ast.Call):
             call = st.items[0].context_expr
@@ -372,6 +384,7 @@ class Exec(ExprMixin, CallMixin):
                 except RaiseSig as rs:
                     if not any(exc_is(rs.exc.cls, n) for n in names):
                         raise
+                    self._note_swallowed(rs)
                 return
         self.with_external(st, fr)
 
